@@ -27,7 +27,8 @@ out = ['Sub-agents that saw only the property text and a scratch worktree produc
        '(`bin/confirm_seed`: applies, unedited suite passes, its own demonstration fails with and passes without it) and is kept in '
        '`/verif/seeded/<id>/` (patch.diff, demo.py, meta.json, detect.json). `bin/seedrun <id> quick` applies the patch to `/repo`, '
        'runs the quick check of the property, restores `/repo` and the evidence files.  First round: Cxx-1, Cxx-2 for all twenty '
-       'properties; second round: Cxx-3, Cxx-4 for C02, C04, C12, C13, C15, C18, C19, C20.  Checks that missed a change at first were '
+       'properties; second round: Cxx-3, Cxx-4 for C02, C04, C12, C13, C15, C18, C19, C20; third round: Cxx-3, Cxx-4 for the other twelve; '
+       'fourth round: Cxx-5, Cxx-6 (the sub-agents were told which changes existed already, to get different mechanisms).  Checks that missed a change at first were '
        'strengthened (generator families or deterministic probes) until they caught it with a concrete input: C02-1/2 (oracle rebuilt '
        'from touching segments), C03, C05, C06 (new families), C12-2, C15-4 (three media), C18-1 (fuzzy-joined ends), C18-4 (nearly '
        'grounded ends), C19-3 (distributed loads in reports), C20-1 / C20-4 (row correspondence, option grid).', '',
